@@ -110,6 +110,8 @@ mod query_pool;
 pub(crate) mod rpc;
 pub mod service;
 pub mod socket;
+#[cfg(feature = "verif-hooks")]
+pub mod verif;
 
 #[macro_use]
 extern crate lazy_static;
